@@ -995,6 +995,20 @@ class World:
                     self.probe("naive-time")
                     if tj.get("fold"):
                         self.probe("naive-time-in-fold")
+                    try:
+                        # cross-check of the harness's reading of a naive
+                        # value (astimezone under the process TZ) against
+                        # the zoneinfo database
+                        import zoneinfo
+                        nv = time_from_json(tj)
+                        a = nv.astimezone(UTC)
+                        b = nv.replace(tzinfo=zoneinfo.ZoneInfo(
+                            self.tz)).astimezone(UTC)
+                        self.probe("naive-time-agrees-with-zoneinfo"
+                                   if a == b else
+                                   "naive-time-DISAGREES-with-zoneinfo")
+                    except Exception:
+                        pass
                 elif not tj["iso"].endswith("+00:00"):
                     self.probe("time-with-utc-offset")
                 if tj["iso"][:2] in ("17", "22"):
@@ -1546,6 +1560,10 @@ class World:
             # (what the index must mirror) are the model's
             ctx["actual"] = list(expected)
         if d is None:
+            if self.prop == "C04" and ctx["out"].kind == "ret" and \
+                    not lenient and self.pending == 0 and i % 3 == 0 and \
+                    self.db is not None:
+                self.check_fresh_reader(ctx)
             if self.prop == "C04" and ctx["out"].kind == "ret":
                 self.evals += 1
                 self.nontrivial.add((
@@ -1581,6 +1599,40 @@ class World:
         self.confirm_file_property(
             ctx, owners, "state-vs-model:" + d[0],
             "after %s %s: %s" % (k, _brief(op), d[1]))
+
+    def check_fresh_reader(self, ctx):
+        """C04 (2): a fresh TinyFlux(path, access_mode="r") on the same disk
+        reads exactly the current contents."""
+        i, k = ctx["i"], ctx["k"]
+        saved_db, saved_handles = self.db, self.handles
+        out = None
+        try:
+            with self.observer():
+                try:
+                    inst = self.fresh_reader(auto_index=bool(i % 2))
+                except Exception as e:
+                    self.fail({"C04"}, "fresh-reader-cannot-open",
+                              "after %s a fresh reader cannot open the "
+                              "file: %r" % (k, e), i, desync=True)
+                    return
+                self.db, self.handles = inst, {}
+                try:
+                    out = self.execute(i, {"op": "all", "sorted": False})
+                finally:
+                    self.db, self.handles = saved_db, saved_handles
+                    inst.close()
+        finally:
+            self.db, self.handles = saved_db, saved_handles
+        self.probe("fresh-reader-compared")
+        if out.kind != "ret":
+            self.fail({"C04"}, "fresh-reader-raised",
+                      "after %s a fresh reader raised %r" % (k, out.exc), i)
+            return
+        d = diff_points(out.value, self.model.points)
+        if d:
+            self.confirm_file_property(
+                ctx, {"C04"}, "fresh-reader-vs-model:" + d[0],
+                "after %s a fresh reader sees: %s" % (k, d[1]))
 
     def confirm_file_property(self, ctx, owners, oracle, msg):
         """C04/C05 speak about the file: a divergence that the memory
